@@ -3,7 +3,7 @@
    CentrallyBin, IrregularlyBin for every sub-range and probe list, transcribed from the code and
    compared with it on every run). *)
 From Coq Require Import ZArith List Bool QArith Qcanon.
-From Hgm Require Import NumOps Xq Agg Ops Views ViewFacts ViewPartition.
+From Hgm Require Import NumOps Xq Agg Ops Views ViewFacts ViewPartition ViewPartition2.
 Import ListNotations.
 
 (* Bin, every arithmetic instance, full range and every sub-range: one more edge than bins, one
@@ -86,3 +86,36 @@ Proof.
   unfold k. apply sbin_index_exact; assumption.
 Qed.
 Print Assumptions C13_sparse_partition.
+
+(* CentrallyBin, every instance: fill puts x into bin k where every midpoint (c_j + c_j+1)/2 below
+   bin k is <= x (not x < midpoint) and, unless k is the last bin, x < the midpoint above it: the bin
+   whose edges - the midpoints bin_edges reports - contain x, ties going to the upper bin *)
+Theorem C13_central_partition : forall (N : num_ops) (cs : list (T N)) (x w : T N) (n : nat),
+  nisnan x = false ->
+  exists k, route (KCentral cs) n (VNum x) w = RTo (only n k w) None /\
+            (k < Nat.max 1 (List.length cs))%nat /\
+            (forall j, (j < k)%nat -> nltb x (mid cs j) = false) /\
+            ((S k < List.length cs)%nat -> nltb x (mid cs k) = true).
+Proof.
+  intros N cs x w n Hn. exists (central_index cs x 0). split.
+  - unfold route. cbn [as_real]. rewrite Hn. reflexivity.
+  - pose proof (central_index_spec cs x 0) as H. cbn zeta in H. rewrite Nat.sub_0_r in H. tauto.
+Qed.
+
+(* IrregularlyBin, every instance: fill puts x into the bin k whose threshold is <= x while the next
+   threshold is not (the last bin is unbounded); a value below every threshold reaches no bin *)
+Theorem C13_irr_partition : forall (N : num_ops) (ts : list (T N)) (x w : T N) (n : nat),
+  nisnan x = false ->
+  (exists k, route (KIrr ts) n (VNum x) w = RTo (only n k w) None /\ (k < List.length ts)%nat /\
+             nleb (nth k ts nnan) x = true /\
+             nleb (match nth_error ts (S k) with Some t2 => t2 | None => nnan end) x = false) \/
+  (route (KIrr ts) n (VNum x) w = RTo (map (fun _ => None) (seq 0 n)) None /\ irr_index ts x 0 = None).
+Proof.
+  intros N ts x w n Hn. unfold route. cbn [as_real]. rewrite Hn.
+  destruct (irr_index ts x 0) as [k|] eqn:E; [left | right; split; reflexivity].
+  exists k. destruct (irr_index_spec ts x 0 k E) as (_ & B & H1 & H2). rewrite Nat.sub_0_r in *.
+  repeat split; assumption.
+Qed.
+
+Print Assumptions C13_central_partition.
+Print Assumptions C13_irr_partition.
